@@ -180,6 +180,41 @@ func runC08(c *Ctx, r *Report) {
 		r.Check(good, "R08.0", "operator "+op, c.Rel(o.Entry.Pos),
 			fmt.Sprintf("%s → %s[p0.Type()][p1.Type()](p0,p1)", SSAName(direct), o.Tab.Name),
 			fmt.Sprintf("dispatch in %s through %s is not [input1.Type()][input2.Type()](input1,input2): index params %v, arg params %v", SSAName(direct), o.Tab.Name, idx, args))
+		// the matrix is the whole operator: no other way out of the dispatching function
+		if good && direct != nil {
+			other := ""
+			for _, b := range direct.Blocks {
+				ret, isRet := b.Instrs[len(b.Instrs)-1].(*ssa.Return)
+				if !isRet || len(ret.Results) != 1 {
+					continue
+				}
+				okRet := false
+				var chk func(v ssa.Value, d int) bool
+				chk = func(v ssa.Value, d int) bool {
+					if d > 4 {
+						return false
+					}
+					switch x := v.(type) {
+					case *ssa.Call:
+						return x.Call.StaticCallee() == nil && !x.Call.IsInvoke()
+					case *ssa.Phi:
+						for _, e := range x.Edges {
+							if !chk(e, d+1) {
+								return false
+							}
+						}
+						return len(x.Edges) > 0
+					}
+					return false
+				}
+				okRet = chk(ret.Results[0], 0)
+				if !okRet {
+					other = c.Rel(ret.Pos())
+				}
+			}
+			r.Check(other == "", "R08.0", "operator "+op+": the matrix is the whole operator", c.Rel(direct.Pos()), "every return is the matrix cell's result",
+				fmt.Sprintf("%s has a way out that does not go through %s (return at %s): a pre-check or special case decides some kind combinations before the matrix is consulted, so the cell-by-cell algebra no longer describes the operator (e.g. an absent or empty operand turned into an error)", SSAName(direct), o.Tab.Name, other))
+		}
 	}
 
 	num := []int{K_INT, K_FLOAT}
